@@ -829,6 +829,60 @@ class H:
         sim.log("inj_end", lid=lid, ctx=cur, out=out, vals=vals, body_ran=body_ran, passthrough=passthrough)
 
 
+async def _straggler(sim: Sim, spec: dict) -> None:
+    """A service task of a *root* context that is still winding down (shielded) when the
+    context's teardown callbacks have all been processed - the host was cancelled, so the
+    finalizer's wait for the task was cut short - publishes one more resource while the
+    context is still closing.  Whatever becomes of that call, the listener of the context
+    sees exactly one event for it if it returned and none if it raised (W15_C18_1)."""
+    outcome: list = []
+    released = anyio.Event()
+    ctx = Context()
+
+    def td_cb() -> None:
+        sim.log("straggler_td")
+
+    async def service() -> None:
+        try:
+            await anyio.sleep_forever()
+        finally:
+            with anyio.CancelScope(shield=True):
+                await released.wait()
+                await sim.pause(spec.get("k", 0), spec.get("dt", 0.0))
+            try:
+                if spec.get("with_td", True):
+                    ctx.add_resource(_Ballast(), "straggler", teardown_callback=td_cb)
+                else:
+                    ctx.add_resource(_Ballast(), "straggler")
+            except Exception as e:  # noqa: BLE001
+                outcome.append(f"{type(e).__name__}: {str(e)[:80]}")
+            else:
+                outcome.append("ok")
+
+    n_events = 0
+    async with ctx.resource_added.stream_events() as stream:
+        with anyio.CancelScope() as scope:
+            try:
+                async with ctx:
+                    ctx.add_teardown_callback(released.set)
+                    await ctx.start_service_task(service, "w:straggler", teardown_action=None)
+                    await sim.pause(spec.get("k0", 0), 0.0)
+                    scope.cancel()
+                    await anyio.sleep(0)
+            except BaseException as e:  # noqa: BLE001
+                if not contains_cancel(e):
+                    raise
+        ctx.resource_added.dispatch(ResourceEvent((), SENTINEL, None, False))
+        with anyio.move_on_after(5.0, shield=True):
+            async for ev in stream:
+                if ev.resource_name == SENTINEL:
+                    break
+                if ev.resource_name == "straggler":
+                    n_events += 1
+    sim.probe("straggler:" + ("none" if not outcome else "ok" if outcome[0] == "ok" else "raised") + f":events={n_events}")
+    sim.log("straggler", outcome=outcome[0] if outcome else None, events=n_events, with_td=bool(spec.get("with_td", True)))
+
+
 def make_main(plan: dict):
     async def main(sim: Sim) -> None:
         h = H(sim, plan)
@@ -837,6 +891,8 @@ def make_main(plan: dict):
             with warnings.catch_warnings(record=True) as wlist:
                 warnings.simplefilter("always")
                 await h.run_block(plan["root"], None)
+                if plan.get("straggler"):
+                    await _straggler(sim, plan["straggler"])
             for w in wlist:
                 if "never awaited" in str(w.message):
                     sim.log("warning", msg=str(w.message)[:80])
@@ -1266,6 +1322,13 @@ def oracle(sim: Sim, plan: dict) -> list[dict]:
         elif kind == "ctxprobe":
             if not d["ok"]:
                 v("C18.events", "source@recycled_context", f"a new context allocated after another one had been garbage collected did not announce its publication on a signal of its own ({d})")
+        elif kind == "straggler":
+            if d["outcome"] is None:
+                v("C18.events", "straggler_never_ran", f"the winding-down service task never got to publish ({d})")
+            elif d["outcome"] != "ok" and d["events"]:
+                v("C18.events", "failed_call_announced", f"add_resource() by a task outliving the teardown callbacks of its closing context failed ({d['outcome']}) but was announced {d['events']} time(s)")
+            elif d["outcome"] == "ok" and d["events"] != 1:
+                v("C18.events", "straggler_publication", f"add_resource() by a task outliving the teardown callbacks of its closing context succeeded but was announced {d['events']} times")
         elif kind == "inj_late":
             if d["second"] != "ok" or d["same"] is not True:
                 v("C19.forward_ref", "retry", f"@inject with a forward reference that became resolvable only after a failed first call ({d['first']}): second call gave {d['second']} (same object: {d['same']})")
@@ -1630,6 +1693,8 @@ def gen(rng: random.Random, tier: str, prop: str) -> dict:
     }
     if rng.random() < (0.15 if prop in ("C04", "C19") else 0.04):
         _make_async_only(plan["root"], rng)
+    if prop == "C18" and rng.random() < 0.12:
+        plan["straggler"] = {"with_td": rng.random() < 0.7, "k": rng.randint(0, 2), "dt": rng.choice(DTS[:3]), "k0": rng.randint(0, 2)}
     if rng.random() < 0.08:
         # some of the contexts are instances of a falsy Context subclass
         def mark(b: dict) -> None:
